@@ -222,6 +222,28 @@ def run(ctx: core.Ctx):
             ctx.record(fam, PROVED if ok else REFUTED, rp if fam.total < 2 else None)
             if not ok:
                 ctx.violate(fam, key, what, rp)
+    # large kernels: few operators on six qubits leave a kernel of dimension 19..23 (a full stabilizer never exceeds 3n = 18); every kernel rank is a different
+    # amount of enumeration, so each is presented at least once (2^rank candidate rows: about 1 GB and 10 s at rank 21)
+    hk = []
+    path3 = G.id_from_adj(6, G.adj_from_edges(6, [(0, 1), (1, 2)]))
+    ops = {3: (0b001000 | 0b010000, 0b010000 | 0b100000), 4: (0b001100 | 0b010000, 0b010000 | 0b100000), 5: (0b001110 | 0b010000, 0b010000 | 0b100001),
+           2: (0b010000, 0b010000 | 0b100000), 1: (0, 0b100000)}
+    for w in ((3, 4, 5) if ctx.quick else (1, 2, 3, 4, 5)):
+        hk.append((6, ([ops[w]], 0, None)))
+        if w >= 3:
+            hk.append((6, ([ops[w]], path3, None)))
+    if not ctx.quick:
+        hk.append((6, ([(0b110000, 0), (0, 0b110000)], G.id_from_adj(6, G.adj_from_edges(6, [(4, 5)])), None)))      # two operators, rank 20
+        hk.append((6, ([(0b000001, 0b000010), (0b100000, 0b010000)], 0, None)))
+    famk = ctx.family("C16.ground.high_kernel_rank", GROUND, "native+brute-force oracle",
+                      "soundness and completeness on inputs whose linear system has a kernel of dimension 19..21 (thorough: ..23): one to two operators on six qubits")
+    famk.exhaustive = True
+    famk.domain = f"{len(hk)} listed (operators, graph) pairs covering kernel ranks {'19, 20, 21' if ctx.quick else '19..23'}"
+    for res in core.pmap(pairs_job, [(n, [case]) for n, case in hk], chunks=1, procs=4):
+        for famname, ok, key, what, rp in res:
+            ctx.record(famk, PROVED if ok else REFUTED, rp if famk.total < 2 else None)
+            if not ok:
+                ctx.violate(famk, key, what, rp)
     # classes without local symmetry: each of the 6^n members has exactly one layer onto the graph
     rj, rtags = [], []
     rnd = random.Random(ctx.seed + 161)
